@@ -184,3 +184,57 @@ func (p *Pool) Put(x interface{}) {
 
 // PoolStats returns the pool counters of the run.
 func (s *Sim) PoolStats() PoolStats { return s.poolStats }
+
+// ---- sync.Map ----
+
+// Map replaces sync.Map: the real map behind a scheduling point per operation, and Range in an order drawn from
+// the choice stream (sync.Map promises none).
+type Map struct {
+	real sync.Map
+}
+
+func (m *Map) Load(key any) (any, bool) { Yield(0); return m.real.Load(key) }
+func (m *Map) Store(key, value any)     { Yield(0); m.real.Store(key, value) }
+func (m *Map) Delete(key any)           { Yield(0); m.real.Delete(key) }
+func (m *Map) Clear()                   { Yield(0); m.real.Clear() }
+func (m *Map) LoadOrStore(key, value any) (any, bool) {
+	Yield(0)
+	return m.real.LoadOrStore(key, value)
+}
+func (m *Map) LoadAndDelete(key any) (any, bool) { Yield(0); return m.real.LoadAndDelete(key) }
+func (m *Map) Swap(key, value any) (any, bool)   { Yield(0); return m.real.Swap(key, value) }
+func (m *Map) CompareAndSwap(key, old, new any) bool {
+	Yield(0)
+	return m.real.CompareAndSwap(key, old, new)
+}
+func (m *Map) CompareAndDelete(key, old any) bool { Yield(0); return m.real.CompareAndDelete(key, old) }
+
+func (m *Map) Range(f func(key, value any) bool) {
+	Yield(0)
+	var keys []any
+	m.real.Range(func(k, _ any) bool { keys = append(keys, k); return true })
+	strs := make([]string, len(keys))
+	for i, k := range keys {
+		strs[i] = fmt.Sprintf("%T %020v", k, k)
+	}
+	idx := make([]int, len(keys))
+	for i := range idx {
+		idx[i] = i
+	}
+	sort.Slice(idx, func(a, b int) bool { return strs[idx[a]] < strs[idx[b]] })
+	if me() != nil {
+		for i := len(idx) - 1; i > 0; i-- {
+			j := ChooseInt(0, i+1)
+			idx[i], idx[j] = idx[j], idx[i]
+		}
+	}
+	for _, i := range idx {
+		v, ok := m.real.Load(keys[i])
+		if !ok {
+			continue
+		}
+		if !f(keys[i], v) {
+			return
+		}
+	}
+}
